@@ -5,8 +5,8 @@ use educe::Educe;
 use core::cmp::Ordering;
 #[derive(Educe)]
 #[educe(Hash)]
-pub struct T { a: A<0>, source: A<1>, b: A<0>, _0: A<3> }
-pub fn values() -> Vec<T> { vec![T { a: A(1), source: A(0), b: A(1), _0: A(7) }, T { a: A(0), source: A(1), b: A(7), _0: A(1) }, T { a: A(7), source: A(0), b: A(7), _0: A(1) }, T { a: A(1), source: A(1), b: A(0), _0: A(1) }, T { a: A(0), source: A(1), b: A(1), _0: A(1) }, T { a: A(1), source: A(0), b: A(1), _0: A(1) }, T { a: A(7), source: A(1), b: A(1), _0: A(1) }, T { a: A(0), source: A(1), b: A(1), _0: A(0) }, T { a: A(0), source: A(0), b: A(7), _0: A(0) }, T { a: A(1), source: A(7), b: A(7), _0: A(1) }, T { a: A(7), source: A(0), b: A(1), _0: A(1) }, T { a: A(0), source: A(7), b: A(7), _0: A(1) }, T { a: A(1), source: A(7), b: A(0), _0: A(7) }, T { a: A(7), source: A(7), b: A(7), _0: A(1) }, T { a: A(7), source: A(7), b: A(0), _0: A(1) }, T { a: A(7), source: A(0), b: A(1), _0: A(0) }, T { a: A(1), source: A(0), b: A(7), _0: A(0) }, T { a: A(1), source: A(7), b: A(0), _0: A(0) }, T { a: A(7), source: A(7), b: A(7), _0: A(0) }, T { a: A(7), source: A(0), b: A(0), _0: A(1) }, T { a: A(7), source: A(0), b: A(0), _0: A(0) }, T { a: A(7), source: A(7), b: A(1), _0: A(0) }, T { a: A(7), source: A(0), b: A(7), _0: A(7) }, T { a: A(7), source: A(7), b: A(1), _0: A(7) }, T { a: A(1), source: A(7), b: A(0), _0: A(1) }, T { a: A(7), source: A(1), b: A(7), _0: A(1) }, T { a: A(0), source: A(1), b: A(0), _0: A(0) }, T { a: A(0), source: A(7), b: A(1), _0: A(1) }, T { a: A(0), source: A(7), b: A(7), _0: A(7) }, T { a: A(0), source: A(0), b: A(0), _0: A(1) }, T { a: A(7), source: A(1), b: A(7), _0: A(0) }, T { a: A(1), source: A(0), b: A(7), _0: A(7) }, T { a: A(7), source: A(1), b: A(0), _0: A(1) }, T { a: A(7), source: A(0), b: A(1), _0: A(7) }, T { a: A(1), source: A(7), b: A(7), _0: A(7) }, T { a: A(1), source: A(7), b: A(1), _0: A(1) }, T { a: A(1), source: A(1), b: A(0), _0: A(0) }, T { a: A(0), source: A(1), b: A(0), _0: A(7) }, T { a: A(0), source: A(7), b: A(1), _0: A(7) }, T { a: A(0), source: A(0), b: A(7), _0: A(1) }, T { a: A(0), source: A(1), b: A(7), _0: A(0) }, T { a: A(1), source: A(7), b: A(1), _0: A(0) }, T { a: A(1), source: A(1), b: A(7), _0: A(1) }, T { a: A(1), source: A(7), b: A(1), _0: A(7) }, T { a: A(1), source: A(0), b: A(0), _0: A(0) }, T { a: A(7), source: A(1), b: A(1), _0: A(7) }, T { a: A(0), source: A(7), b: A(7), _0: A(0) }, T { a: A(0), source: A(7), b: A(0), _0: A(7) }] }
-pub fn show(x: &T) -> String { #[allow(unused_variables)] match x { T { a: p0, source: p1, b: p2, _0: p3 } => format!("T({},{},{},{})", sv(p0), sv(p1), sv(p2), sv(p3)) } }
-pub fn o_hash(x: &T) -> Vec<String> { let mut e = Rec::default(); match x { T { a: p0, source: p1, b: p2, _0: p3 } => { ::core::hash::Hash::hash(p0, &mut e); ::core::hash::Hash::hash(p1, &mut e); ::core::hash::Hash::hash(p2, &mut e); ::core::hash::Hash::hash(p3, &mut e); } } e.0 }
+pub struct T { #[educe(Hash(method(m_hash)))] b: A<0>, #[educe(Hash(ignore))] arg: A<1> }
+pub fn values() -> Vec<T> { vec![T { b: A(0), arg: A(0) }, T { b: A(0), arg: A(1) }, T { b: A(0), arg: A(7) }, T { b: A(1), arg: A(0) }, T { b: A(1), arg: A(1) }, T { b: A(1), arg: A(7) }, T { b: A(7), arg: A(0) }, T { b: A(7), arg: A(1) }, T { b: A(7), arg: A(7) }] }
+pub fn show(x: &T) -> String { #[allow(unused_variables)] match x { T { b: p0, arg: p1 } => format!("T({},{})", sv(p0), sv(p1)) } }
+pub fn o_hash(x: &T) -> Vec<String> { let mut e = Rec::default(); match x { T { b: p0, arg: p1 } => { m_hash(p0, &mut e); } } e.0 }
 pub fn run(out: &mut Out) { let vs = values(); for a in &vs { let mut g = Rec::default(); ::core::hash::Hash::hash(a, &mut g); let e = o_hash(a); out.check(g.0 == e, "hash_20", "hash", || format!("hash({}) fed {:?} expected {:?}", show(a), g.0, e)); } }
